@@ -184,7 +184,8 @@ def blinds_strategy(draw, n, sb_amt, bb_amt):
 @st.composite
 def custom_game(draw, families=None):
     fam = draw(st.sampled_from(families or ['flop', 'stud', 'draw', 'kuhn',
-                                            'flop', 'stud', 'mixed']))
+                                            'flop', 'stud', 'mixed',
+                                            'drawboard']))
     structure = draw(st.sampled_from(['FIXED_LIMIT', 'POT_LIMIT',
                                       'NO_LIMIT']))
     cap = draw(st.sampled_from([None, None, 1, 2, 3, 4]))
@@ -237,6 +238,26 @@ def custom_game(draw, families=None):
             deck=deck, hand_types=hts, structure=structure, streets=streets,
             family=fam, hole=hole, board=sum(shape),
             burns=int(burn) * len(shape), stud=False, max_n=9,
+        )
+    if fam == 'drawboard':
+        # a draw round followed by community cards (none of the predefined
+        # variants has one): an all-in during the draw street has board
+        # streets still to come
+        hole = draw(st.sampled_from([2, 4, 5]))
+        streets = [[0, [0] * hole, 0, 0, 'POSITION', mb, cap],
+                   [int(burn), [], 0, 1, 'POSITION', mb, cap]]
+        shape = draw(st.sampled_from([(3, 1), (3, 1, 1), (2, 1)]))
+        for b in shape:
+            streets.append([int(burn), [], b, 0, 'POSITION', 2 * mb, cap])
+        if hole + sum(shape) >= 5:
+            hts = draw(st.sampled_from([['StandardHighHand'],
+                                        ['StandardLowHand']]))
+        else:
+            hts = ['BadugiHand']
+        return dict(
+            deck='STANDARD', hand_types=hts, structure=structure,
+            streets=streets, family=fam, hole=2 * hole, board=sum(shape),
+            burns=int(burn) * (1 + len(shape)), stud=False, max_n=7,
         )
     if fam == 'mixed':
         # streets that prescribe a hole card *and* a community card (none of
